@@ -27,12 +27,15 @@ PROPS = {
         "assumptions": ["OS file semantics and std::io::BufWriter are modelled (DESIGN §8)"],
     },
     "C02": {
-        "theorems": ["MRL.C02A.C02_crash_atomic", "MRL.C02A.C02_crash_atomic_exact", "MRL.C02A.C02_second_crash",
+        "theorems": ["MRL.C02U.C02_usable", "MRL.C02U.C02_usable_restart", "MRL.C02U.C02_usable_crash_atomic",
+                     "MRL.C02U.C02_usable_second_crash", "MRL.C02U.C02_usable_refines", "MRL.C02U.crash_cinvx",
+                     "MRL.C02U.C02_usable_reach_all", "MRL.C02U.reachX_inv", "MRL.C02U.cinvx_step", "MRL.C02U.cinvx_reopen",
+                     "MRL.C02A.C02_crash_atomic", "MRL.C02A.C02_crash_atomic_exact", "MRL.C02A.C02_second_crash",
                      "MRL.C02A.C02_second_crash_exact", "MRL.C02A.C02_recovered_usable_partial", "MRL.C02A.clean_crash_points",
                      "MRL.C02.C02_torn_tail", "MRL.C02.C02_resume", "MRL.C02.C02_crash", "MRL.C02.resume_nonvacuous",
                      "MRL.C03.unlink_after_sync", "MRL.C03.flush_then_unlink_image", "MRL.C01R.C01_restart_exact"],
         "examples": 4,
-        "modules": ["MRL.Props.C02", "MRL.Props.C03", "MRL.Props.C01Restart", "MRL.Props.C02Atomic"],
+        "modules": ["MRL.Props.C02", "MRL.Props.C03", "MRL.Props.C01Restart", "MRL.Props.C02Atomic", "MRL.Props.C02Usable"],
         "kinds": "ODSFRE",
         "campaigns": {"quick": [("crash", 20, 60)], "thorough": [("crash", 200, 120), ("crash-policies", 100, 100)]},
         "rule": "histories under a flush-per-operation policy; the effect trace is turned into OS-level operations through the BufWriter model; "
@@ -115,9 +118,10 @@ PROPS = {
         "theorems": ["MRL.C08G.C08_genuine_entries", "MRL.C08G.C08_genuine_records", "MRL.C08G.genuine_location",
                      "MRL.C08G.negative_example", "MRL.C08G.negative_violates",
                      "MRL.C08.recover_sorted", "MRL.C08.recover_sorted'", "MRL.C08.replay_records_subset", "MRL.C08.replay_is_fold",
-                     "MRL.C08.recover_records_subset", "MRL.C12.assemble_whole_entry"],
+                     "MRL.C08.recover_records_subset", "MRL.C12.assemble_whole_entry",
+                     "MRL.C08V.C08_recover_genuine"],
         "examples": 5,
-        "modules": ["MRL.Props.C08", "MRL.Props.C12", "MRL.Props.C08Genuine"],
+        "modules": ["MRL.Props.C08", "MRL.Props.C12", "MRL.Props.C08Genuine", "MRL.Props.C08Recover"],
         "kinds": "ODSN",
         "campaigns": {"quick": [("damage", 16, 70), ("bytes", 12, 120)], "thorough": [("damage", 200, 120), ("damage-aimed", 60, 100), ("bytes", 150, 250)]},
         "rule": "damage campaign: final image of a history (with delete/re-create, GC) + 10-20 damage variants each: aimed at crc/payload of "
@@ -128,9 +132,10 @@ PROPS = {
     "C09": {
         "theorems": ["MRL.C09.C09_one_frame", "MRL.C09.damaged_buffers", "MRL.C09.undamaged", "MRL.C09.framesOf_is_layout",
                      "MRL.C12.assemble_whole_entry",
-                     "MRL.C09R.C09_drop_one", "MRL.C09R.C09_drop_one_run", "MRL.C09R.C09_end_to_end"],
+                     "MRL.C09R.C09_drop_one", "MRL.C09R.C09_drop_one_run", "MRL.C09R.C09_end_to_end",
+                     "MRL.C09V.C09_recover_one_frame"],
         "examples": 2,
-        "modules": ["MRL.Props.C09", "MRL.Props.C12", "MRL.Props.C09Replay"],
+        "modules": ["MRL.Props.C09", "MRL.Props.C12", "MRL.Props.C09Replay", "MRL.Props.C08Recover"],
         "kinds": "ODSN",
         "campaigns": {"quick": [("damage-aimed", 16, 70), ("bytes", 12, 120)], "thorough": [("damage-aimed", 240, 120), ("bytes", 150, 250)]},
         "rule": "aimed damage: a traced frame still on disk, alteration (bit flip / garbage / inverted byte) confined to its checksum or payload "
@@ -142,9 +147,10 @@ PROPS = {
         "theorems": ["MRL.C10.recoverP_agrees", "MRL.C10.replay_no_panic", "MRL.C10.runGc_no_panic", "MRL.C10.recover_no_panic",
                      "MRL.C10.recover_no_panic_img", "MRL.C10.recover_buf_bounded", "MRL.C10.replayP_total",
                      "MRL.C10.truncate_max_panics", "MRL.C10.append_max_poisons", "MRL.C10.noMaxFiles_insufficient",
-                     "MRL.C11.ioCalls_bounded", "MRL.C08.recover_sorted"],
+                     "MRL.C11.ioCalls_bounded", "MRL.C08.recover_sorted",
+                     "MRL.C10A.writeEntry_asserts", "MRL.C10A.recover_asserts", "MRL.C10A.decode_name_lt", "MRL.C10A.step_off_le", "MRL.C10A.oversize_assert_fires"],
         "examples": 2,
-        "modules": ["MRL.Props.C10", "MRL.Props.C11", "MRL.Props.C08"],
+        "modules": ["MRL.Props.C10", "MRL.Props.C11", "MRL.Props.C08", "MRL.Props.C10Asserts"],
         "kinds": "ODSNK",
         "campaigns": {"quick": [("damage", 12, 70), ("bytes", 16, 120), ("edge", 4, 0)],
                       "thorough": [("damage", 200, 120), ("bytes", 300, 300), ("names", 60, 100), ("edge", 32, 0)]},
@@ -168,9 +174,10 @@ PROPS = {
         "theorems": ["MRL.C12C.C12_crash", "MRL.C12C.C12_damage", "MRL.C12C.allOrSuffix_of_replay",
                      "MRL.C12.replay_batch_suffix", "MRL.C12.batch_suffix_fresh", "MRL.C12.batch_all_or_nothing",
                      "MRL.C12.assemble_whole_entry",
-                     "MRL.C12K.C12_crash_batch_atomic", "MRL.C12K.C12_crash_no_partial_batch"],
+                     "MRL.C12K.C12_crash_batch_atomic", "MRL.C12K.C12_crash_no_partial_batch",
+                     "MRL.C12V.C12_recover_damage"],
         "examples": 5,
-        "modules": ["MRL.Props.C12", "MRL.Props.C12Compose", "MRL.Props.C12Crash"],
+        "modules": ["MRL.Props.C12", "MRL.Props.C12Compose", "MRL.Props.C12Crash", "MRL.Props.C08Recover"],
         "kinds": "ODSN",
         "campaigns": {"quick": [("crash", 10, 60), ("damage", 10, 70), ("bytes", 12, 120)], "thorough": [("crash-policies", 150, 110), ("damage", 150, 110), ("bytes", 150, 250)]},
         "rule": "crash and damage campaigns with batches of 2-6 records sized to span blocks and files; oracle: for every batch whose queue "
@@ -179,9 +186,10 @@ PROPS = {
     },
     "C13": {
         "theorems": ["MRL.C13.C13_no_trace", "MRL.C13.C13_disk_untouched", "MRL.C13.C13_zero_bytes",
-                     "MRL.C13R.C13_state_unchanged", "MRL.C13R.C13_restart_unaffected"],
+                     "MRL.C13R.C13_state_unchanged", "MRL.C13R.C13_restart_unaffected",
+                     "MRL.C13Acc.accessors_of_abs", "MRL.C13Acc.accessors_of_absEq"],
         "examples": 1,
-        "modules": ["MRL.Props.C13", "MRL.Props.C13Restart"],
+        "modules": ["MRL.Props.C13", "MRL.Props.C13Restart", "MRL.Props.C13Accessors"],
         "kinds": "RESFUDO",
         "campaigns": {"quick": [("ops", 24, 110)], "thorough": [("ops", 240, 200), ("policy-ops", 120, 200)]},
         "rule": "random histories (cursor-relative sizes) with every rejected/no-op call shape inserted at random points; non-trivial = rolled a "
@@ -192,9 +200,10 @@ PROPS = {
     "C14": {
         "theorems": ["MRL.C14.C14_policy_irrelevant", "MRL.C14.C14_history", "MRL.C14.step_keeps_policy", "MRL.C14.C14_same_image",
                      "MRL.C14.C14_history_same_image", "MRL.C14.same_image_literal_false",
-                     "MRL.C14R.recover_policy_irrelevant", "MRL.C14R.C14_restart"],
+                     "MRL.C14R.recover_policy_irrelevant", "MRL.C14R.C14_restart",
+                     "MRL.C14S.C14_reach_restart", "MRL.C14S.C14_reach_logical"],
         "examples": 2,
-        "modules": ["MRL.Props.C14", "MRL.Props.C14Restart"],
+        "modules": ["MRL.Props.C14", "MRL.Props.C14Restart", "MRL.Props.C14Reach"],
         "kinds": "ORESFUG",
         "campaigns": {"quick": [("lockstep", 6, 70)], "thorough": [("lockstep", 60, 150), ("policy-ops", 100, 150)]},
         "rule": "one generated history (with persist calls and restarts) replayed under all seven policies in lock-step; oracle: identical "
@@ -216,9 +225,10 @@ PROPS = {
     "C16": {
         "theorems": ["MRL.C16.C16_used_exact", "MRL.C16.C16_used_split", "MRL.C16.C16_used_ge", "MRL.C16.C16_used_le",
                      "MRL.C16.C16_truncate_drop", "MRL.C16.C16_truncate_noop", "MRL.C16.C16_baseline",
-                     "MRL.C16R.C16_restart_queue", "MRL.C16R.C16_restart_used"],
+                     "MRL.C16R.C16_restart_queue", "MRL.C16R.C16_restart_used",
+                     "MRL.C16K.C16_create", "MRL.C16K.C16_delete", "MRL.C16K.C16_append", "MRL.C16K.C16_truncate", "MRL.C16K.C16_rejected"],
         "examples": 3,
-        "modules": ["MRL.Props.C16", "MRL.Props.C16Restart"],
+        "modules": ["MRL.Props.C16", "MRL.Props.C16Restart", "MRL.Props.C16Calls"],
         "kinds": "US",
         "campaigns": {"quick": [("ops", 24, 110)], "thorough": [("ops", 300, 220)]},
         "rule": "ops campaign; after every call: names + payload <= memory_used_bytes <= names + payload + META x records (META measured on the "
